@@ -526,12 +526,13 @@ def reaching_unique_def(fi, name, use_astnode):
             continue
         others = [x for (_b2, x) in bnodes if x is not bn]
         # no other binding on a path bn -> use
-        r = c.reachable_after(bn, blocked=[use]) if bn is not c.entry else c.reachable(blocked=[use])
+        # paths from bn to the use that do not execute bn again (a later loop iteration re-executes the dominating binding first)
+        r = c.reachable_after(bn, blocked=[use, bn]) if bn is not c.entry else c.reachable(blocked=[use])
         clean = True
         for o in others:
             if o.idx in r:
-                # o reachable from bn before use; does use remain reachable from o?
-                if use.idx in c.reachable_after(o) or o is use:
+                # o reachable from bn before use; does use remain reachable from o without passing bn again?
+                if use.idx in c.reachable_after(o, blocked=[bn] if bn is not c.entry else []) or o is use:
                     clean = False
         if clean:
             cands.append(b)
